@@ -355,7 +355,10 @@ class Shim(object):
         except BaseException as e:
             self.log_json('A', {'k': k, 'r': 'EX', 'e': type(e).__name__})
             raise
-        self.log_json('A', {'k': k, 'r': 'ok'})
+        if self.plan.get('timestamps') and cls == 'M':
+            self.log_json('A', {'k': k, 'r': 'ok', 't': time.time()})
+        else:
+            self.log_json('A', {'k': k, 'r': 'ok'})
         r = self._post(name, r, a, kw, paths, cls)
         if self.interrupt_after == k:
             self.interrupt_after = None
